@@ -6,7 +6,7 @@ import re
 import vlib
 from checks import codeccommon as K
 
-PROOF_MODULES = []
+PROOF_MODULES = ["Codec/CodecTree.vo", "Codec/CodecMatrix.vo", "Codec/CodecRoundtrip.vo"]
 OBLIGATIONS = ["C19/P_decode_encode.v", "C19/P_decode_encode_tree.v", "C19/P_sharing_restored.v",
                "C19/P_node_roundtrip.v", "C19/P_dense_roundtrip.v", "C19/P_nonvacuous.v"]
 
